@@ -146,18 +146,35 @@ def parse_page(text):
     return p
 
 
-def generate(d, M, root_name="my site"):
-    """write the tree, run the real generator; returns (src, out, scratch, error or None). Caller removes scratch."""
+PATH_MODES = ("abs", "rel", "symlink")
+
+
+def generate(d, M, root_name="my site", mode="abs"):
+    """write the tree, run the real generator; returns (src, out, scratch, error or None). Caller removes scratch.
+    mode: how the source directory is named to the generator - absolute path / path relative to the working directory /
+    a symbolic link to the directory (the same site must come out)"""
+    import os
+    from pathlib import Path
     from recipe_grid.static_site.website import generate_static_site
     scratch = scratch_root()
     src, out = scratch / root_name, scratch / "out"
-    write_tree(d, src)
-    listing_order(d, src)
+    real = src if mode != "symlink" else scratch / ("real " + root_name)
+    write_tree(d, real)
+    listing_order(d, real)
+    if mode == "symlink":
+        os.symlink(real, src, target_is_directory=True)
     err = None
+    cwd = os.getcwd()
     try:
-        generate_static_site(src, out, M)
+        if mode == "rel":
+            os.chdir(scratch)
+            generate_static_site(Path(root_name), out, M)
+        else:
+            generate_static_site(src, out, M)
     except Exception as e:  # noqa
         err = e
+    finally:
+        os.chdir(cwd)
     return src, out, scratch, err
 
 
